@@ -14,6 +14,7 @@ package sourceaddrs
 //@   ensures C07,C06.norm: err == nil ==> normSub(r)
 //@   ensures C06.norm.fix: normSub(given) ==> err == nil && r == given
 //@   ensures C07.norm.rejects: err != nil ==> given != "" && (!validPath(given) || Clean(given) == ".")
+//@   ensures C07.norm.accepts: err == nil ==> (given == "" || (validPath(given) && Clean(given) != ".")) && r == ite(given == "", "", Clean(given))
 
 //@ func joinSubPath -> (r, err)
 //@   pure
@@ -150,3 +151,25 @@ package sourceaddrs
 
 //@ func init$2 -> (normed, ok, err)
 //@   sweep
+
+//@ func (RemoteSource).String -> (r)
+//@   sweep
+//@ func (RemotePackage).String -> (r)
+//@   sweep
+//@ func (RemotePackage).subPathString -> (r)
+//@   sweep
+//@ func (RemotePackage).SourceAddr -> (r)
+//@   sweep
+//@   opt allow-panic=documented: SourceAddr panics on an invalid sub-path by contract; callers are checked through the requires below
+//@   requires C19.validsub: ValidSubPathSpec(subPath)
+//@ func (RegistrySource).String -> (r)
+//@   sweep
+//@ func (RegistrySourceFinal).String -> (r)
+//@   sweep
+//@ func ParseRemotePackage -> (r, err)
+//@   sweep
+//@ func ParseRegistryPackage -> (r, err)
+//@   sweep
+//@ func ValidSubPath -> (r)
+//@   sweep
+//@   ensures C19,C18.validsub.spec: r == ValidSubPathSpec(s)
